@@ -460,12 +460,16 @@ Step ==
                  /\ UNCHANGED <<globals, status, ret, calls>>
 
 EntryIndex(c) == CHOOSE i \in 1..Len(c.prog.funcs) : c.prog.funcs[i].name = c.entry /\ c.prog.funcs[i].exported
+\* the activation stack and control stack at the start of an invocation of case c
+InitFrames(c) == LET fi == EntryIndex(c)  f == c.prog.funcs[fi] IN
+                 <<[fn |-> fi, vars |-> [p \in {f.params[j].n : j \in 1..Len(f.params)} |->
+                                           ConvT(f.params[CHOOSE j \in 1..Len(f.params) : f.params[j].n = p].t, c.args[p])]]>>
+InitCtl(c) == <<S(c.prog.funcs[EntryIndex(c)].body)>>
 SInit ==
   /\ cid \in CaseIds
-  /\ LET c == CaseOf(cid)  fi == EntryIndex(c)  f == c.prog.funcs[fi] IN
-     /\ frames = <<[fn |-> fi, vars |-> [p \in {f.params[j].n : j \in 1..Len(f.params)} |->
-                                           ConvT(f.params[CHOOSE j \in 1..Len(f.params) : f.params[j].n = p].t, c.args[p])]]>>
-     /\ ctl = <<S(f.body)>>
+  /\ LET c == CaseOf(cid) IN
+     /\ frames = InitFrames(c)
+     /\ ctl = InitCtl(c)
      /\ globals = c.globals
   /\ vals = <<>> /\ status = "run" /\ ret = VOID /\ steps = 0 /\ calls = <<>>
 SNext == Step
